@@ -85,16 +85,18 @@ Inductive pf_result := PfOk (bits : Z) | PfErr | PfUnm.
 
 Definition take_sign (s : list rune) : bool * list rune :=
   match s with
-  | 43 :: s' => (false, s')
-  | 45 :: s' => (true, s')
-  | _ => (false, s)
+  | c :: s' => if c =? 43 then (false, s') else if c =? 45 then (true, s') else (false, s)
+  | [] => (false, [])
   end.
 
 (* strconv.readFloat + atof64 on the decimal syntax *)
 Definition parse_decimal (s : list rune) : pf_result :=
   let '(neg, s1) := take_sign s in
   let '(ip, s2) := span_digits s1 in
-  let '(fp, s3) := match s2 with 46 :: t => span_digits t | _ => ([], s2) end in
+  let '(fp, s3) := match s2 with
+                   | c :: t => if c =? 46 then span_digits t else ([], s2)
+                   | [] => ([], [])
+                   end in
   match ip ++ fp with
   | [] => PfErr                                          (* no digits *)
   | _ =>
